@@ -12,7 +12,7 @@ use serde_json::{Value as J, json};
 
 use super::*;
 use crate::corpus::Corpus;
-use crate::engine::{CaseResult, PropertyDef, Tier, verif_dir};
+use crate::engine::{CaseResult, PropertyDef, Tier};
 use crate::rng::Rng;
 
 pub static DEF: PropertyDef = PropertyDef {
@@ -102,7 +102,9 @@ fn generate(_corpus: &Corpus, tier: Tier, run: u64, rng: &mut Rng) -> Option<Cas
             "from_json_file": rng.chance(1, 3),
             "stdin": lines,
             "chunks": chunks,
-            "compile_fault": rng.below(5),
+            "compile_fault": rng.below(7),
+            // how the source file starts: 0 as generated, 1 two blank lines, 2 a byte-order mark, 3 a byte-order mark and a blank line
+            "layout": if rng.chance(1, 2) { 0 } else { rng.below(4) },
             "twice": run % 8 == 0,
             // how the input bytes arrive: LF or CRLF line ends, a last line cut off by end-of-input
             "crlf": rng.chance(1, 4),
@@ -565,7 +567,7 @@ fn run(case: &Case, dir: &std::path::Path, res: &mut CaseResult) -> Option<Strin
 
 fn compile_mode(case: &Case, dir: &std::path::Path, res: &mut CaseResult, json_mode: bool, src: &str) -> Option<String> {
     let fault = case.params["compile_fault"].as_u64().unwrap_or(0);
-    // 0,1: good source; 2: syntax/validation error; 3: missing include; 4: unwritable output
+    // 0,1: good source; 2: unknown divert target; 3: missing include; 4: unwritable output; 5,6: parse errors with a line
     let mut source = src.to_string();
     let mut out_arg = "out.ink.json".to_string();
     match fault {
@@ -577,9 +579,24 @@ fn compile_mode(case: &Case, dir: &std::path::Path, res: &mut CaseResult, json_m
         }
         3 => source = format!("INCLUDE missing_file.ink\n{source}"),
         4 => out_arg = "no_such_dir/out.ink.json".to_string(),
+        // errors the parser reports with the line they are on
+        5 => source.push_str("\n=== broken_choice ===\n* [unclosed\n"),
+        6 => source.push_str("\nVAR broken_decl =\n"),
         _ => {}
     }
-    std::fs::write(dir.join("main.ink"), &source).ok()?;
+    // the file as it lies on disk; the tool drops one leading byte-order mark, nothing else
+    let layout = case.params["layout"].as_u64().unwrap_or(0);
+    let on_disk = match layout {
+        1 => format!("\n\n{source}"),
+        2 => format!("{}{source}", '\u{feff}'),
+        3 => format!("{}\n{source}", '\u{feff}'),
+        _ => source.clone(),
+    };
+    if layout != 0 {
+        res.stats.inc("fault.file_layout.leading_blank_or_bom");
+    }
+    std::fs::write(dir.join("main.ink"), &on_disk).ok()?;
+    let source = on_disk.strip_prefix('\u{feff}').unwrap_or(&on_disk).to_string();
     let mut args: Vec<String> = Vec::new();
     if json_mode {
         args.push("-j".into());
